@@ -43,6 +43,9 @@ different BIT offset (the concatenator shifts bits; the reader's alignment argum
 import BV.Lemmas.CatableReplay
 import BV.Lemmas.CbrOpen
 import BV.Lemmas.ReplayFaithful
+import BV.Lemmas.CbrLen2
+import BV.Lemmas.CtxPrefix
+import BV.Props.C01MetaBlockFull
 import BV.Model.Catable
 import BV.Props.C01Chain
 
@@ -328,6 +331,95 @@ theorem catable_trivial_bits_position_independent {H : Type} (ops : HasherOps H)
     numBytes position h0 cache lastInsertLen numLiterals res hpos hmb hc hcl h h' ring' hrel w' window' hw
   obtain ⟨bits2, out, ring'', e2, hrep, hrd, _⟩ := BV.Props.C01MetaBlock.trivial_metablock_roundtrip w' window' large ring
     start mask mb isLast _ (h' ++ hist) ring' w hR h256 h1 hb.len hst hIP hok hlockB
+  have hb2 : bits2 = bits := by
+    rw [e] at e2
+    have := BV.Bits.Out.ok.inj e2
+    exact (List.append_cancel_left this).symm
+  subst hb2
+  have hout : out = h' ++ (hist ++ mb) := by
+    unfold replayCommands at hrep
+    rw [hdecB] at hrep
+    simpa using hrep.symm
+  subst hout
+  exact ⟨ring'', hrd⟩
+
+/-! ## quality 4–9: position independence of the BITS of `BrotliStoreMetaBlock` -/
+
+/-- **`catable_copylen2`** — with the dictionary off every copying command copies at least two bytes (the writers'
+hypothesis `hcl2`) -/
+theorem catable_copylen2 {H : Type} (ops : HasherOps H) (p : Params) (large : Bool)
+    (data : ByteArray) (k tail : Nat) (hist mb : Bytes) (lo : Nat)
+    (hb : BlockOK p large data k tail hist mb lo) (hops : OpsOK (SlotOK noWords) ops p data k)
+    (numBytes position : Nat) (h0 : H) (cache : List Int) (lastInsertLen numLiterals : Nat) (res : Result H)
+    (hpos : position = hist.length + lastInsertLen) (hmb : mb.length = lastInsertLen + numBytes)
+    (hc : CacheI32 cache) (hcl : 4 ≤ cache.length)
+    (h : createBackwardReferences ops p numBytes position h0 cache lastInsertLen numLiterals = some res) :
+    ∀ c ∈ closeMetaBlock res.cmds res.lastInsertLen, copyLen c ≠ 0 → 2 ≤ copyLen c :=
+  cbr_copylen2 (C := ⟨noWords, data, k, hist, mb, lo⟩) hops
+    (emitHyp_all ⟨noWords, data, k, hist, mb, lo⟩ p large hb.np hb.nd tail hb.ring hb.tail_le hb.block_le hb.lo_le hb.window
+      hb.std hb.dist hb.len)
+    numBytes position h0 cache lastInsertLen numLiterals res hpos hmb hb.total hc hcl h
+
+/-- **`catable_full_bits_position_independent`** — quality 4–9 (`BrotliStoreMetaBlock`, model `storeMetaBlockFull`: block
+splits, context maps, literal context modelling).  The block of a catable member whose earlier bytes `hist` are AT LEAST
+TWO (the stored prelude: behind it `prev_byte`, `prev_byte2` and every §7.1 context id are the decoder's whatever
+precedes the member), searched by `CreateBackwardReferences` with the dictionary off, written with ANY well-formed
+`MetaBlockSplit` whose histograms cover the emitted symbols (`MBOK` / `Covers`: for the greedy builder this is
+C01Greedy's `greedy_split_wellformed`): the writer does not panic, and the bits it emits are read by the GENERAL RFC 7932
+reader, started behind ANY foreign history `h'`, with ANY related ring, window ≥ the encoder's and any static dictionary,
+to exactly `h' ++ hist ++ mb`. -/
+theorem catable_full_bits_position_independent {H : Type} (ops : HasherOps H) (p : Params) (large : Bool)
+    (data : ByteArray) (k tail : Nat) (hist mb : Bytes) (lo : Nat)
+    (hb : BlockOK p large data k tail hist mb lo) (hops : OpsOK (SlotOK noWords) ops p data k)
+    (numBytes position : Nat) (h0 : H) (cache : List Int) (lastInsertLen numLiterals : Nat) (res : Result H)
+    (hpos : position = hist.length + lastInsertLen) (hmb : mb.length = lastInsertLen + numBytes)
+    (hc : CacheI32 cache) (hcl : 4 ≤ cache.length)
+    (h : createBackwardReferences ops p numBytes position h0 cache lastInsertLen numLiterals = some res)
+    (hist2 : 2 ≤ hist.length)
+    (ring : Bytes) (start mask prevByte prevByte2 : Nat) (isLast : Bool) (mode : Nat) (mbs : MBSplit) (w : List Bool)
+    (hR : RingHolds ring mask start mb) (h256 : ∀ b ∈ mb, b < 256) (hh256 : ∀ b ∈ hist, b < 256)
+    (h1 : 1 ≤ mb.length) (h64 : start + mb.length < 2 ^ 64)
+    (hIP : inputPairCheck ring start mb.length mask = .ok ())
+    (hprev : prevByte = lastB hist ∧ prevByte2 = last2B hist) (hmode : mode < 4)
+    (hM : MBOK mbs (distAlphabetSize large 0 0))
+    (hcL : Covers mbs.litHistos (effMap mbs.litCmap mbs.litCmapSize mbs.lit.numTypes 64) 64
+      (remTypes mbs.lit 0 (mbs.lit.lengths.getD 0 0))
+      (litSymsOf mode hist mb 0 (closeMetaBlock res.cmds res.lastInsertLen)))
+    (hcI : Covers mbs.cmdHistos (trivialMap mbs.cmd.numTypes 1) 1
+      (remTypes mbs.cmd 0 (mbs.cmd.lengths.getD 0 0))
+      ((closeMetaBlock res.cmds res.lastInsertLen).map fun c => (0, c.cmdPrefix)))
+    (hcD : Covers mbs.distHistos (effMap mbs.distCmap mbs.distCmapSize mbs.dist.numTypes 4) 4
+      (remTypes mbs.dist 0 (mbs.dist.lengths.getD 0 0)) (distSymsOf (closeMetaBlock res.cmds res.lastInsertLen))) :
+    ∃ bits, storeMetaBlockFull ring start mb.length mask prevByte prevByte2 isLast
+        ⟨0, 0, distAlphabetSize large 0 0, large⟩ mode (closeMetaBlock res.cmds res.lastInsertLen) mbs w = .ok (w ++ bits) ∧
+      ∀ (h' : Bytes) (_ : ∀ b ∈ h', b < 256) (ring' : List Int) (_ : RingRel (maxBackwardLimit p) (cache.take 4) ring')
+        (w' : WordOracle) (window' : Nat) (_ : maxBackwardLimit p ≤ window'),
+        ∃ ring'', ∀ rest, readMetaBlockFullG w' window' large w.length ⟨h' ++ hist, ring'⟩ (bits ++ rest)
+          = some (⟨h' ++ (hist ++ mb), ring''⟩, isLast, (w ++ bits).length, rest) := by
+  have hA544 : distAlphabetSize large 0 0 ≤ 544 := by cases large <;> decide
+  have hcl2 := catable_copylen2 ops p large data k tail hist mb lo hb hops numBytes position h0 cache lastInsertLen
+    numLiterals res hpos hmb hc hcl h
+  -- the member alone
+  obtain ⟨hok, hlockA, _⟩ := catable_block_position_independent ops p large data k tail hist mb lo hb hops numBytes
+    position h0 cache lastInsertLen numLiterals res hpos hmb hc hcl h [] (cache.take 4) (RingRel.refl _ _) noWords
+    (maxBackwardLimit p) (Nat.le_refl _)
+  have hfaA := catable_block_faithful ops p large data k tail hist mb lo hb hops numBytes position h0 cache lastInsertLen
+    numLiterals res hpos hmb hc hcl h [] (cache.take 4) (RingRel.refl _ _) noWords (maxBackwardLimit p) (Nat.le_refl _)
+  obtain ⟨bits, _, _, e, _, _, _⟩ := BV.Props.C01MetaBlockFull.full_metablock_roundtrip noWords (maxBackwardLimit p) ring start
+    mask prevByte prevByte2 mb isLast ⟨0, 0, distAlphabetSize large 0 0, large⟩ mode _ mbs ([] ++ hist) (cache.take 4) w hR
+    h256 (by simpa using hh256) h1 hb.len h64 hIP (by simpa using hprev) hmode (by show 0 ≤ 3; decide) (by show 0 % 2 ^ 0 = 0; decide) (by show 0 / 2 ^ 0 < 16; decide) rfl hA544
+    hok hcl2 hlockA hfaA hM (by simpa using hcL) hcI hcD
+  refine ⟨bits, e, ?_⟩
+  intro h' hh' ring' hrel w' window' hw
+  obtain ⟨_, hlockB, ring2, hdecB, _⟩ := catable_block_position_independent ops p large data k tail hist mb lo hb hops
+    numBytes position h0 cache lastInsertLen numLiterals res hpos hmb hc hcl h h' ring' hrel w' window' hw
+  have hfaB := catable_block_faithful ops p large data k tail hist mb lo hb hops numBytes position h0 cache lastInsertLen
+    numLiterals res hpos hmb hc hcl h h' ring' hrel w' window' hw
+  obtain ⟨bits2, out, ring'', e2, hrep, hrd, _⟩ := BV.Props.C01MetaBlockFull.full_metablock_roundtrip w' window' ring start
+    mask prevByte prevByte2 mb isLast ⟨0, 0, distAlphabetSize large 0 0, large⟩ mode _ mbs (h' ++ hist) ring' w hR
+    h256 (by intro b hb'; rcases List.mem_append.mp hb' with x | x; exact hh' b x; exact hh256 b x) h1 hb.len h64 hIP
+    (by rw [lastB_prefix h' hist (by omega), last2B_prefix h' hist hist2]; exact hprev) hmode (by show 0 ≤ 3; decide) (by show 0 % 2 ^ 0 = 0; decide)
+    (by show 0 / 2 ^ 0 < 16; decide) rfl hA544 hok hcl2 hlockB hfaB hM (by rw [litSymsOf_prefix mode h' hist mb hist2]; exact hcL) hcI hcD
   have hb2 : bits2 = bits := by
     rw [e] at e2
     have := BV.Bits.Out.ok.inj e2
